@@ -17,7 +17,7 @@ LEVEL_NOTE = "Trusted: virtual clock, probes attached from /verif (wait_for_next
 DESIGN_REF = "§5 C31"
 RULE = "case = (program, cancel point k) or (program, timeout T); distinct = hash of (program, fault); non-trivial = fault lands while the run is unfinished"
 REQUIRED_REACH = ["cancel_point", "cancelled_run", "cancel_after_finish", "timeout_case", "timed_out_run", "timeout_after_finish", "resume_after_cancel",
-                  "active_steps_eval", "active_steps_nonempty", "reserialize_after_resume", "deadline_inside_blocked_stretch", "stop_returned_before_deadline_loop_regained_after", "resumed_run_with_timeout"]
+                  "active_steps_eval", "active_steps_nonempty", "reserialize_after_resume", "deadline_inside_blocked_stretch", "stop_returned_before_deadline_loop_regained_after", "resumed_run_with_timeout", "deadline_in_run_whose_steps_never_await"]
 ASSUMPTIONS = ["timeout instants avoid exact ties with the run's own event times (x.37 offsets)"]
 
 
@@ -32,8 +32,12 @@ def gen_case(seed):
 
     rnd = random.Random(seed)
     if rnd.random() < 0.2:
-        spec = gen.gen_busy(rnd)
-        fam = "busy"
+        if rnd.random() < 0.4:
+            spec = gen.gen_spin(rnd)
+            fam = "spin"
+        else:
+            spec = gen.gen_busy(rnd)
+            fam = "busy"
     elif rnd.random() < 0.6:
         spec = gen.gen_detq(rnd) if rnd.random() < 0.3 else gen.gen_det(rnd)
         fam = "det"
@@ -175,10 +179,20 @@ def check_timeout(case, T, ref, acc):
         acc.hit("deadline_inside_blocked_stretch")
         if any(r["t"] < T - 1e-6 for r in stop_returned) and done_at is not None and done_at > T:
             acc.hit("stop_returned_before_deadline_loop_regained_after")  # the decisive order
+    if case["family"] == "spin":
+        acc.hit("deadline_in_run_whose_steps_never_await")
+        # the deadline falls inside a blocked stretch, so the run cannot end AT T; but once the loop has regained control after T
+        # (it did if it started another step body), an unfinished run must not go on as if it had no timeout
+        later = [r for r in tr.rec.of("enter") if r["t"] > T + 1e-9]
+        if kind != "timeout" and len(later) >= 2:
+            acc.violation({"mech": "unfinished_run_not_timed_out", "outcome": str(kind), "steps_never_await": True},
+                          f"timeout={T}: the control loop regained control after the deadline and started {len(later)} more step bodies "
+                          f"(first at vt={later[0]['t']}); the run went on until vt={done_at} and ended as {tr.outcome}", wit)
+            return
     if kind != "timeout":
         acc.hit("timeout_after_finish")
         # (busy family: the loop is blocked across the deadline, the run cannot end at T; only the finished-first clause is decided there)
-        if done_at is not None and done_at > T + 1e-6 and case["family"] != "busy":
+        if done_at is not None and done_at > T + 1e-6 and case["family"] not in ("busy", "spin"):
             acc.violation({"mech": "unfinished_run_not_timed_out", "outcome": str(kind)},
                           f"timeout={T} but the run went on until vt={done_at} and ended as {tr.outcome}", wit)
         return
@@ -192,7 +206,7 @@ def check_timeout(case, T, ref, acc):
         acc.violation({"mech": "timeout_terminal_event_wrong"}, f"timed-out run's terminal stream events: {[e['type'] for e in terms]}", wit)
         return
     ev = terms[0]
-    if abs(ev["t"] - T) > 1e-6 and case["family"] != "busy":
+    if abs(ev["t"] - T) > 1e-6 and case["family"] not in ("busy", "spin"):
         acc.violation({"mech": "timeout_at_wrong_instant"}, f"WorkflowTimedOutEvent published at vt={ev['t']}, timeout={T}", wit)
     # active steps: steps with a body in flight at T  <=  active_steps  <=  steps holding an in-progress invocation
     acc.hit("active_steps_eval")
@@ -224,7 +238,7 @@ def run_one(case, acc, only=None):
         return
     acc.sample({"seed": case["seed"], "family": case["family"], "yields": box["n"], "reference_outcome": tr0.outcome, "end": tr0.vt_end})
     rnd = random.Random(case["seed"] ^ 0x31)
-    if case["family"] == "busy":
+    if case["family"] in ("busy", "spin"):
         ts = case["spec"]["meta"]["deadlines"] if only is None else ([only["timeout"]] if "timeout" in only else [])
         for T in ts:
             check_timeout(case, T, tr0, acc)
